@@ -1,0 +1,48 @@
+//go:build verif
+
+package forwarding
+
+import (
+	"github.com/mutagen-io/mutagen/pkg/state"
+)
+
+// VerifC33Controller wraps a minimal controller (state, state lock and tracker
+// only) so that the verification harness can run the controller's real
+// forwarding loop (controller.forward) between endpoints of its own and read
+// the connection and data counters. It exists only in builds with the verif
+// tag.
+type VerifC33Controller struct {
+	tracker    *state.Tracker
+	controller *controller
+}
+
+// VerifC33NewController creates the wrapper.
+func VerifC33NewController() *VerifC33Controller {
+	tracker := state.NewTracker()
+	return &VerifC33Controller{
+		tracker: tracker,
+		controller: &controller{
+			stateLock: state.NewTrackingLock(tracker),
+			state:     &State{},
+		},
+	}
+}
+
+// Forward runs controller.forward until it returns.
+func (v *VerifC33Controller) Forward(source, destination Endpoint) error {
+	return v.controller.forward(source, destination)
+}
+
+// Counters returns the open/total connection counts and the inbound/outbound
+// data totals of the controller's state.
+func (v *VerifC33Controller) Counters() (open, total, inbound, outbound uint64) {
+	v.controller.stateLock.Lock()
+	defer v.controller.stateLock.UnlockWithoutNotify()
+	s := v.controller.state
+	return s.OpenConnections, s.TotalConnections, s.TotalInboundData, s.TotalOutboundData
+}
+
+// Close terminates the state tracker.
+func (v *VerifC33Controller) Close() {
+	v.tracker.Terminate()
+}
